@@ -5,9 +5,9 @@ the case splits of the ring proofs: empty <-> non-empty transitions, ring wrap-a
 phase, the full-queue condition (255 pending, forced completion), bursts of every size
 0..128 and 129, bursts straddling the ring end, rejected bursts, polling with get-completed."""
 
-VALID_KINDS = [0, 1, 2, 3, 5, 6, 7, 8, 10, 11]
+VALID_KINDS = [0, 1, 2, 3, 5, 6, 7, 8, 10, 11, 12, 13, 14, 15]
 PARKED = [1, 2, 3, 6, 7, 10, 11]
-IMMEDIATE = [0, 5, 8]
+IMMEDIATE = [0, 5, 8, 12, 13, 14, 15]    # 12..15: zero-length DOCSIS + CRC32, completed by the submit wrapper itself
 INVALID = [4, 9]
 
 
